@@ -223,6 +223,11 @@ CHECKS["C02"] = {
          "gen_stubs": [{"pkgpath": "github.com/ProtonMail/gluon/connector", "iface": "Connector", "type": "verifConnBase"}],
          "params": {"quick": grid(k=[1, 2, 3]), "thorough": grid(k=[3, 4])},
          "cover": ["mailboxes-updated", "flags-updated", "deleted"]},
+        {"name": "connector-realqueue", "pkg": "internal/backend", "pkgname": "backend", "entry": "VerifC02Connector", "goroutines": True, "files": ["zz_verif_backend.go", "zz_verif_c02.go"],
+         "with": ["verifdb", "state_export"],
+         "gen_stubs": [{"pkgpath": "github.com/ProtonMail/gluon/connector", "iface": "Connector", "type": "verifConnBase"}],
+         "params": {"quick": grid(k=[1, 2]), "thorough": grid(k=[3])},
+         "cover": ["mailboxes-updated", "flags-updated", "deleted"]},
         {"name": "queue", "pkg": "async", "pkgname": "async", "entry": "VerifC02Queue", "files": ["zz_verif_c02.go"], "goroutines": True, "replay_timeout_s": 40,
          "params": {"quick": grid(k=[2], burst=[3]), "thorough": grid(k=[3], burst=[3]) + grid(k=[2], burst=[5])},
          "cover": ["queue-drained"]},
